@@ -586,7 +586,16 @@ fn gen_c06(tier: &str, rng: &mut Sm) -> Gen {
             g.inputs.push(case(rng, draws * 20, pol, pop.clone(), spec));
         }
     }
-    g.meta("generator", "populations: empty, singleton, all-equal, duplicate-laden, ragged (missing cases), random, and one of 300 individuals; selectors: best, worst, random, tournament sizes 1..n+2, lexicase case counts 0..4, weighted trees (depth <= 2, weights incl. 0), dynamic lists (also nested); some configurations with an extreme (all-zero / all-one) first random word in every selection (support only); selector values that served other populations before");
+    // THOUSANDS of cases on which everybody ties (identical individuals): nobody is ever eliminated, the loop over the cases
+    // runs to its end, the selection is uniform (closed form C08_all_tied_uniform) - and it must return at all
+    for (n, c) in [(2usize, 24000usize), (3, 3000)] {
+        let row: Vec<i64> = (0..c).map(|k| ((k * 5) % 11) as i64).collect();
+        // identical on every case that is looked at, different on one further result that is not
+        let pop: Vec<Vec<i64>> = (0..n).map(|i| { let mut r = row.clone(); r.push(i as i64); r }).collect();
+        let pol = rng.range(0, 1);
+        g.inputs.push(case(rng, 40, pol, pop, tl![A(4), au(c)]));
+    }
+    g.meta("generator", "populations: empty, singleton, all-equal, duplicate-laden, ragged (missing cases), random, and one of 300 individuals; identical individuals with 3000 / 24000 cases under lexicase; selectors: best, worst, random, tournament sizes 1..n+2, lexicase case counts 0..4, weighted trees (depth <= 2, weights incl. 0), dynamic lists (also nested); some configurations with an extreme (all-zero / all-one) first random word in every selection (support only); selector values that served other populations before");
     g
 }
 
@@ -725,7 +734,16 @@ fn gen_c08(tier: &str, rng: &mut Sm) -> Gen {
             g.inputs.push(case(rng, draws, pol, pop, tl![A(4), au(c)]));
         }
     }
-    g.meta("generator", "result matrices up to 6 individuals x 4 cases with ties and duplicates, zero cases, single individual, both polarities, configured case count <= results available, more cases than individuals incl. cases on which everybody ties, equal totals with different per-case vectors; 6 and 7 (thorough: 8) cases; 12, 20 and 50 cases with a unique best individual on every case");
+    // THOUSANDS of cases on which everybody ties (identical individuals): uniform over the population (C08_all_tied_uniform)
+    for (n, c) in [(2usize, 24000usize), (3, 3000), (5, 1000)] {
+        let row: Vec<i64> = (0..c).map(|k| ((k * 5) % 11) as i64).collect();
+        // identical on every case that is looked at, different on one further result that is not
+        let pop: Vec<Vec<i64>> = (0..n).map(|i| { let mut r = row.clone(); r.push(i as i64); r }).collect();
+        for pol in [0i64, 1] {
+            g.inputs.push(case(rng, draws / 20, pol, pop.clone(), tl![A(4), au(c)]));
+        }
+    }
+    g.meta("generator", "result matrices up to 6 individuals x 4 cases with ties and duplicates, zero cases, single individual, both polarities, configured case count <= results available, more cases than individuals incl. cases on which everybody ties, equal totals with different per-case vectors; 6 and 7 (thorough: 8) cases; 12, 20 and 50 cases with a unique best individual on every case; 1000 / 3000 / 24000 cases on which identical individuals tie throughout");
     g
 }
 
